@@ -25,7 +25,22 @@ def ST(name, fn, entry, cap=4, **kw):
     return d
 
 
+def MP(name, fn, entry, cap=4, **kw):
+    d = dict(name=name, tu=DRV, spec_headers=['spec/ghost.h', 'spec/tables_spec.h'], models=[],
+             harness='harness/c20_map.c', roots=['gdstk::Map<uint64_t>::' + fn], entry=entry, enforce='Map_uint64_t__' + fn,
+             replace=['hash__char_p'], kind='bounded',
+             bound='table capacity %d, one-letter string keys; histories, letters, values and the hash function are arbitrary' % cap,
+             defines={'VF_CAP': cap, 'VF_CAPMAX': max(8, 2 * cap), 'VF_NO_TAGMAP': 1, 'VF_WITH_MAP': 1}, unwind=max(8, 2 * cap) + 2,
+             timeout=1800, tier='quick', native_include=[DRV])
+    d.update(kw)
+    return d
+
+
 GROUPS = [
+    MP('map_get_slot', 'get_slot', 'h_mp_get_slot'),
+    MP('map_get', 'get', 'h_mp_get'),
+    MP('map_has_key', 'has_key', 'h_mp_has'),
+    MP('map_del', 'del', 'h_mp_del', solver='cadical', tier='thorough', timeout=3000),   # 19 min with cadical, timeout with minisat
     ST('set_get_slot', 'get_slot', 'h_st_get_slot', solver='cadical'),
     ST('set_add_nogrow', 'add', 'h_st_add_nogrow', enforce='Set_uint64_t__add/Set_uint64_t__add_nogrow'),
     ST('set_del', 'del', 'h_st_del'),
